@@ -1,12 +1,12 @@
 ;; Core sorts shared by specs and models.
-;; Seq: byte strings as values (arguments of uninterpreted crypto / codec primitives).
-(declare-sort Seq 0)
+;; BSeq: byte strings as values (arguments of uninterpreted crypto / codec primitives).
+(declare-sort BSeq 0)
 
-(declare-fun seq.of ((Array (_ BitVec 64) (_ BitVec 8)) (_ BitVec 64) (_ BitVec 64)) Seq)
+(declare-fun bseq.of ((Array (_ BitVec 64) (_ BitVec 8)) (_ BitVec 64) (_ BitVec 64)) BSeq)
 
-(declare-fun seq.len (Seq) (_ BitVec 64))
+(declare-fun bseq.len (BSeq) (_ BitVec 64))
 
-(declare-fun seq.at (Seq (_ BitVec 64)) (_ BitVec 8))
+(declare-fun bseq.at (BSeq (_ BitVec 64)) (_ BitVec 8))
 
 ;; hash objects: digest size of the hash object at a reference, and of a constructor function value
 (declare-fun hsize (Int) (_ BitVec 64))
@@ -22,3 +22,15 @@
 
 ;; substring relation shared by the models of strings.Contains / Split / SplitN / Index
 (declare-fun str_contains (Str Str) Bool)
+
+;; sequences built from memory: length and elements (extensional reading of BSeq)
+(assert (forall ((a (Array (_ BitVec 64) (_ BitVec 8))) (o (_ BitVec 64)) (n (_ BitVec 64)))
+  (! (=> (bvsge n #x0000000000000000) (= (bseq.len (bseq.of a o n)) n)) :pattern ((bseq.of a o n)))))
+
+(assert (forall ((a (Array (_ BitVec 64) (_ BitVec 8))) (o (_ BitVec 64)) (n (_ BitVec 64)) (i (_ BitVec 64)))
+  (! (=> (and (bvsle #x0000000000000000 i) (bvslt i n)) (= (bseq.at (bseq.of a o n) i) (select a (bvadd o i))))
+     :pattern ((bseq.at (bseq.of a o n) i)))))
+
+(define-fun seqlen ((s BSeq)) (_ BitVec 64) (bseq.len s))
+
+(define-fun seqat ((s BSeq) (i (_ BitVec 64))) (_ BitVec 8) (bseq.at s i))
